@@ -732,6 +732,10 @@ func (index *setIndex) CheckIntegrity(ctx MutateContext, fix bool, errorSink fun
 			key := PrependFieldType(TypeString, id)
 			if idxBucket == nil || !idxBucket.IsKeyPresent(key) {
 				if fix {
+					// what is missing may be the bucket of the index itself, not just the entry
+					if baseBucket := GetOrCreatePath(tx, index.indexPath...); baseBucket.HasError() {
+						return baseBucket.GetError()
+					}
 					idxBucket = index.getIndexBucket(tx, value)
 					if idxBucket.HasError() {
 						return idxBucket.GetError()
